@@ -45,8 +45,8 @@ Record entry := { e_id : Z; e_linked : bool }.
 Inductive pc :=
 | Idle
 (* dispatch_async_f *)
-| PA_xchg (qos : Z)                    (* about to exchange dq_items_tail *)
-| PA_link (i : Z) (was_empty : bool) (qos : Z)  (* about to publish the link *)
+| PA_xchg (qos : Z) (ovr : bool)       (* about to exchange dq_items_tail *)
+| PA_link (i : Z) (was_empty : bool) (qos : Z) (ovr : bool)  (* about to publish the link *)
 | PA_probe (qos : Z)                   (* _dispatch_lane_wakeup: _dispatch_queue_class_probe *)
 | PA_wake (qos : Z) (target : bool)    (* _dispatch_queue_wakeup's rmw loop with MAKE_DIRTY *)
 | PA_rootpush                          (* ENQUEUED was set by this thread: _dispatch_queue_push_queue on the target *)
@@ -79,7 +79,7 @@ Inductive pc :=
 | PR_bchead (qos : Z)                  (* _dispatch_queue_get_head *)
 | PR_cbc (qos : Z) (target : bool)     (* _dispatch_lane_class_barrier_complete's loop *)
 | PR_bcxor (qos : Z)                   (* DIRTY seen: xor (acquire), dx_wakeup(BARRIER_COMPLETE) again *)
-| PR_probe (qos : Z)                   (* plain dx_wakeup(CONSUME_2) (never reached on a serial lane; kept for fidelity) *)
+| PR_probe (qos : Z)                   (* dx_wakeup(CONSUME_2) without MAKE_DIRTY: the need_override wakeup of a push *)
 | PR_wake (qos : Z)
 (* dispatch_activate *)
 | PC_rmw                               (* _dispatch_lane_resume(dq, true)'s loop *)
@@ -190,13 +190,16 @@ Definition lockbits (t : Z) : Z := Z.lor (Z.lor t WIDTH_FULL_BIT) IN_BARRIER.
 Definition delta0 : Z := u64 (u64 (HALF * INTERVAL) - INTERVAL).
 
 (* what a client may start on an idle thread *)
-Inductive call := CAsync (qos : Z) | CWorker (floor : Z) | CSuspend | CResume | CActivate.
+(* CAsync qos ovr: ovr = what _dispatch_queue_need_override will answer if this push finds the list non-empty; it reads
+   dq_state without synchronisation (the source: "may read a stale dq_state value"), so the model lets the environment
+   choose: true = the push also issues dx_wakeup(dq, qos, CONSUME_2), which may set ENQUEUED but never DIRTY *)
+Inductive call := CAsync (qos : Z) (ovr : bool) | CWorker (floor : Z) | CSuspend | CResume | CActivate.
 
 Definition begin (s : gst) (t : Z) (c : call) : option gst :=
   match pcs s t with
   | Idle =>
       match c with
-      | CAsync qos => if (0 <=? qos) && (qos <? 8) then Some (set_pc s t (PA_xchg qos)) else None
+      | CAsync qos ovr => if (0 <=? qos) && (qos <? 8) then Some (set_pc s t (PA_xchg qos ovr)) else None
       | CWorker floor =>
           if 0 <? rootq s then Some (set_token (set_pc (set_rootq s (rootq s - 1)) t (PW_lock floor)) (Some (Some t))) else None
       | CSuspend => Some (set_pc s t PS_rmw)
@@ -224,16 +227,16 @@ Definition gstep (rb : Z) (s : gst) (t : Z) : option gst :=
   | Idle => None
   | PCrash _ => None
   (* ---------------- dispatch_async_f (as SLane) *)
-  | PA_xchg qos =>
+  | PA_xchg qos ovr =>
       let i := nextid s in
       let was_empty := match lst s with [] => true | _ => false end in
-      let s1 := set_pc (set_lst s (lst s ++ [{| e_id := i; e_linked := false |}])) t (PA_link i was_empty qos) in
+      let s1 := set_pc (set_lst s (lst s ++ [{| e_id := i; e_linked := false |}])) t (PA_link i was_empty qos ovr) in
       Some {| st := st s1; lst := lst s1; rootq := rootq s1; pcs := pcs s1; nextid := i + 1; started := started s1;
               running := running s1; token := token s1; wakers := if was_empty then t :: wakers s else wakers s;
               lockh := lockh s1; side := side s1; sidelock := sidelock s1; susp_done := susp_done s1; rpre := rpre s1;
               sret := sret s1; plic := plic s1; pstarts := pstarts s1; act_called := act_called s1 |}
-  | PA_link i was_empty qos =>
-      Some (set_pc (set_lst s (link_id (lst s) i)) t (if was_empty then PA_probe qos else Idle))
+  | PA_link i was_empty qos ovr =>
+      Some (set_pc (set_lst s (link_id (lst s) i)) t (if was_empty then PA_probe qos else if ovr then PR_probe qos else Idle))
   | PA_probe qos =>
       Some (match lst s with
             | [] => set_wakers (set_pc s t Idle) (remove_z t (wakers s))
